@@ -33,6 +33,12 @@
 (*                                                                         *)
 (* The vertex interface (strop_decomposition) is judged by the operators   *)
 (* of the last section (shoelace area, recognition through module Stog).   *)
+(*                                                                         *)
+(* Configurations: Strop_mc_vacuity (sides <= 3, <= 6 cells, coverage),    *)
+(* Strop_mc_quick (sides <= 4, <= 12 cells: 3x4, 4x3, ... all 9 418 grids),*)
+(* Strop_mc_thorough (sides <= 5, <= 16 cells: 4x4, 3x5, 5x3, ... 142 602  *)
+(* grids); DECLCELLS = 12 everywhere.  Strop_gen_* = the same with EMIT.   *)
+(* Largest intermediate value: a shoelace sum (<= 2 * 64 * 64).            *)
 (***************************************************************************)
 EXTENDS Geometry, TLC, Json
 
@@ -221,6 +227,9 @@ InvShadowIsDecl == (Analysed /\ nr * nc <= DECLCELLS) => (ShadowStog(g, nr, nc) 
 InvTrunksSuffice == Analysed => (inst # {} <=> ShadowStog(g, nr, nc))
 \* every potential trunk is a full rectangle
 InvTrunksFull == Analysed => \A t \in trunks : GProper(t, nr, nc) /\ Full(g, t)
+\* ... and already passes the cell count test: single runs through the trunk's rows and columns plus empty
+\* corners leave nothing for the test to reject (so weakening that test alone changes no result)
+LemmaTrunksValid == Analysed => \A t \in trunks : Valid(g, t)
 
 (***************************************************************************)
 (* THE VERTEX INTERFACE strop_decomposition(vertices)                      *)
